@@ -54,6 +54,7 @@ type judgement struct {
 	sig         string
 	maxStates   int
 	modelEvents int
+	overflow    bool
 }
 
 func (j *judgement) add(key, what string, at int, detail interface{}) {
@@ -351,18 +352,24 @@ func judge(h *Header, evs []Ev) *judgement {
 	strictFail := m.run(true)
 	j.maxStates, j.modelEvents = m.maxStates, m.checked
 	j.internal = append(j.internal, m.internal...)
+	j.overflow = m.overflow
 	if strictFail != nil {
 		m2 := &model{h: h, evs: evs, arr: arr, peerOf: peerOf}
 		m2.prepass()
 		superFail := m2.run(false)
 		j.internal = append(j.internal, m2.internal...)
+		if m2.overflow {
+			j.overflow = true
+			superFail = nil
+			strictFail = nil
+		}
 		if m2.checked > j.modelEvents {
 			j.modelEvents = m2.checked
 		}
 		if m2.maxStates > j.maxStates {
 			j.maxStates = m2.maxStates
 		}
-		if superFail == nil || superFail.at > strictFail.at {
+		if strictFail != nil && (superFail == nil || superFail.at > strictFail.at) {
 			e := strictFail.ev
 			var rejAt []int
 			for _, r := range rejections {
